@@ -2,11 +2,17 @@
 open Conv
 let () =
   register "bl" (function
-    | [mode; lst; _route; _cache; peer; xff] ->
+    | mode :: lst :: _route :: _cache :: peer :: xff :: rest ->
       let bl = if lst = "-" then [] else Stdlib.List.map bytes_of_hex (Stdlib.String.split_on_char ',' lst) in
       let hs = if xff = "-" then [] else [ (Http.hname_of (bytes_of_hex "582d466f727761726465642d466f72"), bytes_of_hex xff) ] in
       let p = { Http.p_ip = bytes_of_hex peer; Http.p_port = n_of_int 1 } in
-      (match Blacklist.serve Http.ipv4_parse (mode = "block") bl p hs with
+      (* the address parser: the IPv4 model parser, extended by the table of IPv6 literals the driver computed *)
+      let tbl = match rest with
+        | [t] when t <> "-" -> Stdlib.List.map (fun kv -> match Stdlib.String.split_on_char '=' kv with
+            | [k; v] -> (bytes_of_hex k, bytes_of_hex v) | _ -> failwith "ipmap") (Stdlib.String.split_on_char ',' t)
+        | _ -> [] in
+      let ipp s = match Http.ipv4_parse s with Some r -> Some r | None -> Stdlib.List.assoc_opt s tbl in
+      (match Blacklist.serve ipp (mode = "block") bl p hs with
        | Blacklist.Dropped -> "dropped"
        | Blacklist.Forbidden -> "forbidden"
        | Blacklist.Served -> "served")
